@@ -11,9 +11,9 @@ pub fn one(ctx: &mut Ctx, input: &str, ext_bits: u32) {
     let desc = format!("ext={ext_bits} input={input:?}");
     let Ok(evs) = guarded(|| PullParser::new(input, ext).collect::<Vec<_>>()) else { ctx.count("panicked (judged by C03)"); return };
     ctx.case(format!("events {ext_bits} {}", enc_text(input)), r_events(&evs), evs.len() > 2, desc.clone());
+    scanner_vs_lexer(ctx, input);
     if evs.iter().any(|e| matches!(e, Event::Error(_))) { ctx.count("has-error-event (premise false)"); return; }
     ctx.count("no-error-event");
-    scanner_vs_lexer(ctx, input);
     // covered bytes = union of the spans of content events
     let mut covered = vec![false; input.len() + 1];
     for e in &evs {
